@@ -137,6 +137,34 @@ def h_crosshair(fn, timeout=150):
     return body
 
 
+def h_unit_state(op):
+    """one update() of an unbounded stateful operation from an ARBITRARY state (inductive step): the state is the
+    previous output (once/historically/since) or the previous input (prev/s_prev/rise/fall), any extended real"""
+    def body(env):
+        A = env.A
+        import importlib
+        mod = {'once': 'once_operation.OnceOperation', 'historically': 'historically_operation.HistoricallyOperation',
+               'since': 'since_operation.SinceOperation', 'prev': 'previous_operation.PreviousOperation',
+               's_prev': 'strong_previous_operation.StrongPreviousOperation', 'rise': 'rise_operation.RiseOperation',
+               'fall': 'fall_operation.FallOperation'}[op]
+        m, c = mod.split('.')
+        o = getattr(importlib.import_module('rtamt.semantics.stl.discrete_time.online.' + m), c)()
+        st = env.ext('state')
+        s1, s2 = env.ext('s1'), env.ext('s2')
+        if op in ('once', 'historically', 'since'):
+            o.prev_out = st
+        else:
+            o.prev = st
+        got = o.update(s1, s2) if op == 'since' else o.update(s1)
+        env.observe('out', got)
+        want = {'once': lambda: A.max([s1, st]), 'historically': lambda: A.min([s1, st]),
+                'since': lambda: A.max([A.min([s1, st]), s2]), 'prev': lambda: st, 's_prev': lambda: st,
+                'rise': lambda: A.min([-st, s1]), 'fall': lambda: A.min([st, -s1])}[op]()
+        new_state = o.prev_out if op in ('once', 'historically', 'since') else o.prev
+        return [('out', A.eq(got, want)), ('state', A.eq(new_state, got if op in ('once', 'historically', 'since') else s1))]
+    return body
+
+
 STATEFUL = [('prev', X), ('s_prev', X), ('once', X), ('historically', X), ('rise', X), ('fall', X),
             ('once_t', X, 0, 1), ('once_t', X, 1, 2), ('historically_t', X, 1, 2), ('since', X, Y), ('since_t', X, Y, 0, 1)]
 
@@ -184,6 +212,8 @@ def obligations(tier, rng):
     if not quick:
         for fn in ('once_0_2', 'historically_1_2', 'since_0_1', 'since_unbounded', 'precedes_0_1', 'rise_op', 'unit_transformer'):
             out.append(ob('C02', 'crosshair', 'crosshair/%s' % fn, fn=fn, validate=0, wall=900))
+    for op in ('once', 'historically', 'since', 'prev', 's_prev', 'rise', 'fall'):
+        out.append(ob('C02', 'unit_state', 'unit/%s (arbitrary state)' % op, op=op))
     for op in ('once', 'historically', 'since', 'precedes'):
         for end in range(0, 4 if quick else 7):
             for begin in range(0, end + 1):
